@@ -98,6 +98,7 @@ func runPipe(delim byte, failAt int, chunks []string, pauses []int) string {
 		}
 	case <-time.After(10 * time.Second):
 		res = "R:hang"
+		noteHang()
 		cancel()
 	}
 	mu.Lock()
@@ -141,6 +142,10 @@ func init() {
 						pauses = append(pauses, n)
 					}
 				}
+			}
+			if overHangBudget() {
+				fmt.Fprintf(out, "%s !stall:skipped-after-hangs\n", f[0])
+				continue
 			}
 			fmt.Fprintf(out, "%s %s\n", f[0], runPipe(byte(d), failAt, chunks, pauses))
 		}
